@@ -1,6 +1,6 @@
 (* Proofs/SC.v — lemmas about Model/SC.v (C04; reused by C15, C19). *)
 From Coq Require Import List Arith NArith Bool Lia Permutation Sorted.
-From PrefVerif Require Import Lib.Perms Model.SC.
+From PrefVerif Require Import Lib.Perms Model.Distances Model.SC.
 Import ListNotations.
 
 (* ============================================================================================== *)
@@ -698,3 +698,378 @@ Proof.
   apply changes_sorted in Hs. rewrite <- map_map with (g := fun x => Bool.eqb x v) in Hs.
   now rewrite changes_eqb_const in Hs.
 Qed.
+
+(* ============================================================================================== *)
+(* 10. the link to Kendall tau: the verification pass of is_single_crossing                        *)
+(* ============================================================================================== *)
+Lemma idx_cons x t a : idx (x :: t) a = if N.eqb a x then 0 else S (idx t a).
+Proof. unfold idx. simpl. destruct (N.eqb a x); [reflexivity|]. destruct (index a t); reflexivity. Qed.
+
+(* prefers is the comparison  o.index(a) < o.index(b)  of the Python code *)
+Lemma prefers_idx o a b : prefers o a b = (idx o a <? idx o b).
+Proof.
+  induction o as [|x t IH]; [reflexivity|].
+  rewrite !idx_cons. cbn [prefers]. rewrite (N.eqb_sym x a), (N.eqb_sym x b).
+  destruct (N.eqb a x); destruct (N.eqb b x); try reflexivity. exact IH.
+Qed.
+
+Lemma prefers_total o a b : In a o -> In b o -> a <> b -> prefers o b a = negb (prefers o a b).
+Proof.
+  intros Ha Hb Hne. induction o as [|x t IH]; [contradiction|]. cbn [prefers].
+  destruct (N.eqb_spec x a) as [Hxa|Hxa]; destruct (N.eqb_spec x b) as [Hxb|Hxb]; try reflexivity.
+  - exfalso. congruence.
+  - apply IH.
+    + destruct Ha; [contradiction|assumption].
+    + destruct Hb; [contradiction|assumption].
+Qed.
+
+Lemma prefers_app_notin p l a b : ~ In a p -> ~ In b p -> prefers (p ++ l) a b = prefers l a b.
+Proof.
+  intros Ha Hb. induction p as [|x t IH]; [reflexivity|]. simpl.
+  destruct (N.eqb_spec x a) as [->|_]; [exfalso; apply Ha; now left|].
+  destruct (N.eqb_spec x b) as [->|_]; [exfalso; apply Hb; now left|].
+  apply IH; intros H; [apply Ha|apply Hb]; now right.
+Qed.
+
+Definition b2n (b : bool) : nat := if b then 1 else 0.
+
+Fixpoint sumf {T} (f : T -> nat) (l : list T) : nat :=
+  match l with [] => 0 | y :: t => f y + sumf f t end.
+
+Fixpoint pairsum (g : N -> N -> nat) (l : list N) : nat :=
+  match l with [] => 0 | x :: t => sumf (g x) t + pairsum g t end.
+
+Lemma sumf_ext_in {T} (f g : T -> nat) l : (forall y, In y l -> f y = g y) -> sumf f l = sumf g l.
+Proof.
+  induction l as [|y t IH]; intros H; [reflexivity|]. simpl. rewrite H by now left.
+  rewrite IH; [reflexivity|]. intros z Hz. apply H. now right.
+Qed.
+
+Lemma sumf_perm {T} (f : T -> nat) l l' : Permutation l l' -> sumf f l = sumf f l'.
+Proof. induction 1; simpl; lia. Qed.
+
+Lemma sumf_app {T} (f : T -> nat) l1 l2 : sumf f (l1 ++ l2) = sumf f l1 + sumf f l2.
+Proof. induction l1; simpl; lia. Qed.
+
+Lemma sumf_map {T U} (f : U -> nat) (h : T -> U) l : sumf f (map h l) = sumf (fun x => f (h x)) l.
+Proof. induction l; simpl; congruence. Qed.
+
+Lemma sumf_add {T} (f g : T -> nat) l : sumf (fun x => f x + g x) l = sumf f l + sumf g l.
+Proof. induction l; simpl; lia. Qed.
+
+Lemma sumf_eq_pointwise {T} (f g : T -> nat) l :
+  (forall x, In x l -> f x <= g x) -> sumf f l = sumf g l -> forall x, In x l -> f x = g x.
+Proof.
+  induction l as [|y t IH]; intros Hle Heq x Hx; [contradiction|]. simpl in Heq.
+  assert (Hy : f y <= g y) by (apply Hle; now left).
+  assert (Ht : sumf f t <= sumf g t).
+  { clear -Hle. induction t as [|z t IH]; [simpl; lia|]. simpl.
+    assert (f z <= g z) by (apply Hle; right; now left).
+    assert (sumf f t <= sumf g t); [|lia]. apply IH. intros w [->|Hw]; apply Hle; [now left|right; now right]. }
+  destruct Hx as [<-|Hx]; [lia|]. apply IH; try assumption; [|lia]. intros z Hz. apply Hle. now right.
+Qed.
+
+Lemma length_filter_sumf {T} (p : T -> bool) l : length (filter p l) = sumf (fun y => b2n (p y)) l.
+Proof. induction l as [|y t IH]; [reflexivity|]. simpl. destruct (p y); simpl; lia. Qed.
+
+Lemma kt_count_pairsum o2 o1 : kt_count o2 o1 = pairsum (fun x y => b2n (prefers o2 y x)) o1.
+Proof.
+  induction o1 as [|x t IH]; [reflexivity|]. simpl. rewrite IH, length_filter_sumf. f_equal.
+  apply sumf_ext_in. intros y _. now rewrite prefers_idx.
+Qed.
+
+Lemma nodup_app_disjoint {T} (p l : list T) y : NoDup (p ++ l) -> In y p -> In y l -> False.
+Proof.
+  induction p as [|z p IH]; [contradiction|]. simpl. intros Hnd Hp Hl. inversion Hnd as [|? ? Hz Hr]; subst.
+  destruct Hp as [->|Hp]; [apply Hz; apply in_app_iff; now right|now apply IH].
+Qed.
+
+Lemma kt_count_conflict p l o2 : NoDup (p ++ l) -> incl l o2 ->
+  pairsum (fun x y => b2n (prefers o2 y x)) l = pairsum (fun a b => b2n (conflict (p ++ l) o2 a b)) l.
+Proof.
+  revert p. induction l as [|x t IH]; intros p Hnd Hi; [reflexivity|].
+  cbn [pairsum]. f_equal.
+  - apply sumf_ext_in. intros y Hy. unfold conflict.
+    assert (Hnd' := Hnd). apply NoDup_remove_2 in Hnd'.
+    assert (Hxy : x <> y). { intros ->. apply Hnd'. apply in_app_iff. now right. }
+    rewrite prefers_app_notin.
+    + cbn [prefers]. rewrite N.eqb_refl. destruct (N.eqb_spec x y) as [E|_]; [contradiction|].
+      cbn [negb xorb]. rewrite (prefers_total o2 x y); [destruct (prefers o2 x y); reflexivity| | |assumption].
+      * apply Hi. now left.
+      * apply Hi. now right.
+    + intros Hx. apply Hnd'. apply in_app_iff. now left.
+    + intros Hyp. eapply nodup_app_disjoint; [exact Hnd|exact Hyp|now right].
+  - replace (p ++ x :: t) with ((p ++ [x]) ++ t) by (rewrite <- app_assoc; reflexivity).
+    apply IH.
+    + rewrite <- app_assoc. exact Hnd.
+    + intros y Hy. apply Hi. now right.
+Qed.
+
+Lemma pairsum_perm g l l' : Permutation l l' ->
+  (forall a b, In a l -> In b l -> g a b = g b a) -> pairsum g l = pairsum g l'.
+Proof.
+  induction 1 as [|x l l' HP IH|x y l|l l' l'' HP1 IH1 HP2 IH2]; intros Hs.
+  - reflexivity.
+  - cbn [pairsum]. rewrite (sumf_perm _ _ _ HP), IH; [reflexivity|].
+    intros a b Ha Hb. apply Hs; now right.
+  - cbn [pairsum sumf]. rewrite (Hs x y); [lia|right; now left|now left].
+  - rewrite IH1 by assumption. apply IH2. intros a b Ha Hb.
+    apply Hs; eapply Permutation_in; try eassumption; now apply Permutation_sym.
+Qed.
+
+Lemma conflict_sym o1 o2 a b : In a o1 -> In b o1 -> In a o2 -> In b o2 ->
+  conflict o1 o2 a b = conflict o1 o2 b a.
+Proof.
+  intros H1 H2 H3 H4. destruct (N.eq_dec a b) as [->|Hne]; [reflexivity|]. unfold conflict.
+  rewrite (prefers_total o1 a b), (prefers_total o2 a b) by assumption.
+  destruct (prefers o1 a b), (prefers o2 a b); reflexivity.
+Qed.
+
+(* Kendall tau = number of pairs of alternatives ranked differently, counted over a fixed index list *)
+Theorem ktd_conflicts alts o1 o2 : NoDup alts -> Permutation alts o1 -> Permutation alts o2 ->
+  ktd o1 o2 = pairsum (fun a b => b2n (conflict o1 o2 a b)) alts.
+Proof.
+  intros Hnd H1 H2. unfold ktd. rewrite kt_count_pairsum.
+  rewrite (kt_count_conflict [] o1 o2).
+  - cbn [app]. symmetry. apply pairsum_perm; [assumption|].
+    intros a b Ha Hb. f_equal. apply conflict_sym; eapply Permutation_in; eassumption.
+  - cbn [app]. eapply Permutation_NoDup; eassumption.
+  - intros x Hx. eapply Permutation_in; [|eapply Permutation_in; [apply Permutation_sym; exact H1|exact Hx]]. exact H2.
+Qed.
+
+Lemma pairsum_pairs g l : pairsum g l = sumf (fun p => g (fst p) (snd p)) (pairs l).
+Proof.
+  induction l as [|x t IH]; [reflexivity|]. cbn [pairsum pairs]. rewrite sumf_app, sumf_map, IH. reflexivity.
+Qed.
+
+Lemma pairs_In a b l : In (a, b) (pairs l) -> In a l /\ In b l.
+Proof.
+  induction l as [|x t IH]; [contradiction|]. cbn [pairs]. rewrite in_app_iff, in_map_iff.
+  intros [(y & E & Hy)|H].
+  - injection E as -> ->. split; [now left|now right].
+  - destruct (IH H). split; now right.
+Qed.
+
+Lemma pairs_neq a b l : NoDup l -> In (a, b) (pairs l) -> a <> b.
+Proof.
+  induction l as [|x t IH]; [contradiction|]. intros Hnd. inversion Hnd as [|? ? Hx Ht]; subst.
+  cbn [pairs]. rewrite in_app_iff, in_map_iff. intros [(y & E & Hy)|H].
+  - injection E as -> ->. intros ->. contradiction.
+  - now apply IH.
+Qed.
+
+Lemma pairs_cover a b l : In a l -> In b l -> a <> b -> In (a, b) (pairs l) \/ In (b, a) (pairs l).
+Proof.
+  induction l as [|x t IH]; [contradiction|]. intros Ha Hb Hne. cbn [pairs]. rewrite !in_app_iff, !in_map_iff.
+  destruct Ha as [->|Ha]; destruct Hb as [->|Hb].
+  - contradiction.
+  - left. left. exists b. auto.
+  - right. left. exists a. auto.
+  - destruct (IH Ha Hb Hne); [left|right]; now right.
+Qed.
+
+(* additivity of Kendall tau along x, y, z  <->  no pair on which x and z agree against y *)
+Lemma ktd_additive alts x y z : NoDup alts ->
+  Permutation alts x -> Permutation alts y -> Permutation alts z ->
+  (ktd x y + ktd y z = ktd x z <->
+   forall p, In p (pairs alts) ->
+     Bool.eqb (prefers y (fst p) (snd p)) (prefers x (fst p) (snd p))
+     || Bool.eqb (prefers z (fst p) (snd p)) (prefers y (fst p) (snd p)) = true).
+Proof.
+  intros Hnd Hx Hy Hz.
+  rewrite (ktd_conflicts alts x y), (ktd_conflicts alts y z), (ktd_conflicts alts x z) by assumption.
+  rewrite !pairsum_pairs, <- sumf_add.
+  assert (Hpt : forall p : N * N,
+            b2n (conflict x z (fst p) (snd p)) <= b2n (conflict x y (fst p) (snd p)) + b2n (conflict y z (fst p) (snd p))).
+  { intros p. unfold conflict.
+    destruct (prefers x (fst p) (snd p)), (prefers y (fst p) (snd p)), (prefers z (fst p) (snd p)); simpl; lia. }
+  split.
+  - intros Heq p Hp. symmetry in Heq.
+    pose proof (sumf_eq_pointwise _ _ _ (fun q _ => Hpt q) Heq p Hp) as E. cbv beta in E.
+    unfold conflict in E.
+    destruct (prefers x (fst p) (snd p)), (prefers y (fst p) (snd p)), (prefers z (fst p) (snd p));
+      simpl in *; try reflexivity; discriminate.
+  - intros H. apply sumf_ext_in. intros p Hp. specialize (H p Hp). unfold conflict.
+    destruct (prefers x (fst p) (snd p)), (prefers y (fst p) (snd p)), (prefers z (fst p) (snd p));
+      simpl in *; try reflexivity; discriminate.
+Qed.
+
+(* the condition on boolean sequences checked pair by pair *)
+Fixpoint adj_ok (x : bool) (l : list bool) : bool :=
+  match l with
+  | [] => true
+  | y :: t => match t with
+              | [] => true
+              | z :: _ => (Bool.eqb y x || Bool.eqb z y) && adj_ok x t
+              end
+  end.
+
+Lemma adj_ok_cons2 x y z t : adj_ok x (y :: z :: t) = (Bool.eqb y x || Bool.eqb z y) && adj_ok x (z :: t).
+Proof. reflexivity. Qed.
+
+Lemma eqb_sym_bool (a b : bool) : Bool.eqb a b = Bool.eqb b a.
+Proof. destruct a, b; reflexivity. Qed.
+
+Lemma adj_ok_other x y t : y <> x -> adj_ok x (y :: t) = forallb (Bool.eqb y) t.
+Proof.
+  intros Hne. induction t as [|z t IH]; [reflexivity|].
+  rewrite adj_ok_cons2. cbn [forallb].
+  assert (E : Bool.eqb y x = false) by (destruct y, x; try reflexivity; contradiction).
+  rewrite E. cbn [orb]. destruct (Bool.eqb z y) eqn:Ez.
+  - apply eqb_prop in Ez. subst z. rewrite eqb_reflx, IH. reflexivity.
+  - rewrite eqb_sym_bool in Ez. rewrite Ez. reflexivity.
+Qed.
+
+Lemma adj_ok_changes x l : adj_ok x l = true <-> changes (x :: l) <= 1.
+Proof.
+  induction l as [|y t IH]; [simpl; split; auto|].
+  rewrite changes_cons2. destruct (Bool.eqb x y) eqn:E.
+  - apply eqb_prop in E. subst y. destruct t as [|z t'].
+    + simpl. split; auto.
+    + rewrite adj_ok_cons2, eqb_reflx. cbn [orb andb]. rewrite IH. simpl. tauto.
+  - assert (Hne : y <> x) by (intros ->; rewrite eqb_reflx in E; discriminate).
+    rewrite (adj_ok_other x y t Hne), const_changes. lia.
+Qed.
+
+Lemma ordered_check_from_cons2 first y z t :
+  ordered_check_from first (y :: z :: t) =
+  (ktd first y + ktd y z =? ktd first z) && ordered_check_from first (z :: t).
+Proof. reflexivity. Qed.
+
+Lemma ordered_from_spec alts first t : NoDup alts -> Permutation alts first ->
+  Forall (fun o => Permutation alts o) t ->
+  (ordered_check_from first t = true <->
+   forall p, In p (pairs alts) ->
+     adj_ok (prefers first (fst p) (snd p)) (map (fun o => prefers o (fst p) (snd p)) t) = true).
+Proof.
+  intros Hnd Hf. induction t as [|y t IH]; intros Ht.
+  - simpl. split; auto.
+  - destruct t as [|z t'].
+    + simpl. split; auto.
+    + inversion Ht as [|? ? Hy Ht']; subst. inversion Ht' as [|? ? Hz _]; subst.
+      rewrite ordered_check_from_cons2, andb_true_iff, Nat.eqb_eq.
+      rewrite (ktd_additive alts first y z Hnd Hf Hy Hz), (IH Ht'). split.
+      * intros [H1 H2] p Hp. cbn [map]. rewrite adj_ok_cons2, andb_true_iff. split; [now apply H1|].
+        specialize (H2 p Hp). exact H2.
+      * intros H. split; intros p Hp; specialize (H p Hp); cbn [map] in H;
+          rewrite adj_ok_cons2, andb_true_iff in H; destruct H as [H1 H2]; assumption.
+Qed.
+
+Lemma switches_swap_args alts a b s : Forall (fun o => Permutation alts o) s ->
+  In a alts -> In b alts -> a <> b -> switches b a s = switches a b s.
+Proof.
+  intros Hs Ha Hb Hne. rewrite !switches_changes, <- (changes_negb (map (fun o => prefers o a b) s)), map_map.
+  f_equal. apply map_ext_in. intros o Ho. rewrite Forall_forall in Hs. specialize (Hs o Ho).
+  apply prefers_total; try assumption; eapply Permutation_in; eassumption.
+Qed.
+
+(* the verification pass of is_single_crossing (additivity of the Kendall-tau distances from the first
+   order of the sequence) accepts exactly the single-crossing sequences *)
+Theorem ordered_check_correct alts s : NoDup alts -> Forall (fun o => Permutation alts o) s ->
+  (ordered_check s = true <-> single_crossing_seq alts s).
+Proof.
+  intros Hnd Hs. destruct s as [|first t].
+  - simpl. split; [|reflexivity]. intros _ a b _ _ _. simpl. lia.
+  - inversion Hs as [|? ? Hf Ht]; subst. cbn [ordered_check].
+    rewrite (ordered_from_spec alts first t Hnd Hf Ht). split.
+    + intros H a b Ha Hb Hne.
+      assert (Hp : forall a b, In (a, b) (pairs alts) -> switches a b (first :: t) <= 1).
+      { intros a' b' Hp. specialize (H (a', b') Hp). cbn [fst snd] in H.
+        apply adj_ok_changes in H. rewrite switches_changes. exact H. }
+      destruct (pairs_cover a b alts Ha Hb Hne) as [Hin|Hin].
+      * now apply Hp.
+      * rewrite (switches_swap_args alts b a) by auto. now apply Hp.
+    + intros H [a b] Hp. cbn [fst snd]. apply adj_ok_changes.
+      pose proof (pairs_In a b alts Hp) as [Ha Hb]. pose proof (pairs_neq a b alts Hnd Hp) as Hne.
+      specialize (H a b Ha Hb Hne). rewrite switches_changes in H. exact H.
+Qed.
+
+Corollary ordered_check_seq_check alts s : NoDup alts -> Forall (fun o => Permutation alts o) s ->
+  ordered_check s = sc_seq_check alts s.
+Proof.
+  intros Hnd Hs.
+  assert (E : ordered_check s = true <-> sc_seq_check alts s = true).
+  { rewrite (ordered_check_correct alts s Hnd Hs), sc_seq_check_correct. tauto. }
+  destruct (ordered_check s), (sc_seq_check alts s); try reflexivity.
+  - symmetry. now apply E.
+  - now apply E.
+Qed.
+
+(* switches-free characterisation: Kendall tau is additive along every triple i < j < k of the sequence *)
+Lemma changes_sub3 m1 x m2 y m3 z m4 :
+  changes [x; y; z] <= changes (m1 ++ x :: m2 ++ y :: m3 ++ z :: m4).
+Proof.
+  eapply Nat.le_trans; [|apply (changes_delete_block [] m1 (x :: m2 ++ y :: m3 ++ z :: m4))]. cbn [app].
+  eapply Nat.le_trans; [|apply (changes_delete_block [x] m2 (y :: m3 ++ z :: m4))].
+  eapply Nat.le_trans; [|apply (changes_delete_block [x; y] m3 (z :: m4))].
+  pose proof (changes_delete_block [x; y; z] m4 []) as H0. rewrite !app_nil_r in H0. exact H0.
+Qed.
+
+Lemma ordered_from_adjacent first t :
+  (forall l2 y z rest, t = l2 ++ y :: z :: rest -> ktd first y + ktd y z = ktd first z) ->
+  ordered_check_from first t = true.
+Proof.
+  induction t as [|y t IH]; intros H; [reflexivity|]. destruct t as [|z t']; [reflexivity|].
+  rewrite ordered_check_from_cons2, andb_true_iff, Nat.eqb_eq. split.
+  - apply (H [] y z t'). reflexivity.
+  - apply IH. intros l2 y' z' rest E. apply (H (y :: l2) y' z' rest). rewrite E. reflexivity.
+Qed.
+
+Theorem sc_seq_kt_triples alts s : NoDup alts -> Forall (fun o => Permutation alts o) s ->
+  (single_crossing_seq alts s <->
+   forall l1 x l2 y l3 z l4, s = l1 ++ x :: l2 ++ y :: l3 ++ z :: l4 -> ktd x y + ktd y z = ktd x z).
+Proof.
+  intros Hnd Hs. split.
+  - intros H l1 x l2 y l3 z l4 E.
+    assert (Hin : forall o, In o [x; y; z] -> In o s).
+    { intros o Ho. rewrite E. simpl in Ho. rewrite !in_app_iff; cbn [In]; rewrite !in_app_iff; cbn [In].
+      rewrite !in_app_iff; cbn [In]. intuition. }
+    assert (H3 : Forall (fun o => Permutation alts o) [x; y; z]).
+    { rewrite Forall_forall in *. intros o Ho. apply Hs. now apply Hin. }
+    assert (Hsc : single_crossing_seq alts [x; y; z]).
+    { intros a b Ha Hb Hne. specialize (H a b Ha Hb Hne). rewrite switches_changes in *.
+      eapply Nat.le_trans; [|exact H]. rewrite E. rewrite map_app. cbn [map]. rewrite map_app. cbn [map].
+      rewrite map_app. cbn [map]. apply changes_sub3. }
+    apply (ordered_check_correct alts [x; y; z] Hnd H3) in Hsc.
+    cbn [ordered_check ordered_check_from] in Hsc. rewrite andb_true_r in Hsc. now apply Nat.eqb_eq.
+  - intros H. apply (ordered_check_correct alts s Hnd Hs). destruct s as [|first t]; [reflexivity|].
+    cbn [ordered_check]. apply ordered_from_adjacent. intros l2 y z rest E.
+    apply (H [] first l2 y [] z rest). rewrite E. reflexivity.
+Qed.
+
+(* Kendall tau as a count over the unordered pairs of alternatives *)
+Theorem ktd_pairs alts o1 o2 : NoDup alts -> Permutation alts o1 -> Permutation alts o2 ->
+  ktd o1 o2 = length (filter (fun p => conflict o1 o2 (fst p) (snd p)) (pairs alts)).
+Proof.
+  intros Hnd H1 H2. rewrite (ktd_conflicts alts o1 o2 Hnd H1 H2), pairsum_pairs, length_filter_sumf. reflexivity.
+Qed.
+
+(* ktd is the value of the C20 model of kendall_tau_distance on rankings over the same alternatives *)
+Lemma index_some x l : In x l -> exists i, index x l = Some i.
+Proof.
+  induction l as [|y t IH]; [contradiction|]. intros Hin. simpl.
+  destruct (N.eqb_spec x y) as [->|Hne]; [eexists; reflexivity|].
+  destruct Hin as [->|Hin]; [contradiction|]. destruct (IH Hin) as (i & ->). eexists; reflexivity.
+Qed.
+
+Lemma ktd_kendall_tau alts o1 o2 : Permutation alts o1 -> Permutation alts o2 ->
+  kendall_tau o1 o2 = Lib.Val.Ok (ktd o1 o2).
+Proof.
+  intros H1 H2. unfold kendall_tau, ktd.
+  assert (HP : Permutation o1 o2) by (eapply Permutation_trans; [apply Permutation_sym; exact H1|exact H2]).
+  rewrite (Permutation_length HP), Nat.eqb_refl. cbn [negb].
+  assert (Ha : all_in o1 o2 = true).
+  { unfold all_in. apply forallb_forall. intros x Hx.
+    destruct (index_some x o2) as (i & ->); [eapply Permutation_in; eassumption|reflexivity]. }
+  rewrite Ha. cbn [negb]. rewrite andb_false_r. reflexivity.
+Qed.
+
+(* invariance of the polynomial reference (for C15), from its equality with sc_decide *)
+Corollary sc_conflict_decide_perm alts alts' orders orders' :
+  Permutation alts alts' -> Permutation orders orders' ->
+  sc_conflict_decide alts orders = sc_conflict_decide alts' orders'.
+Proof. intros Ha Ho. rewrite !sc_conflict_decide_eq. now apply sc_decide_perm. Qed.
+
+Corollary sc_conflict_decide_relabel (f : N -> N) : (forall x y, f x = f y -> x = y) ->
+  forall alts orders, sc_conflict_decide (map f alts) (map (map f) orders) = sc_conflict_decide alts orders.
+Proof. intros Hf alts orders. rewrite !sc_conflict_decide_eq. now apply sc_decide_relabel. Qed.
